@@ -1,14 +1,27 @@
 """
 C12 — Servers isolate concurrent clients and always shut down cleanly.
 
-Model   : lean/JRV/Model/ServerLife.lean (life-cycle LTS: serving thread, closing thread, shutdown caller, handlers)
-Theorems: lean/JRV/Properties/C12.lean
-Tie     : extracted bodies of PooledJSONRPCServer.server_close / serve_forever / process_request
-          (tools/extractors/serverlife.py) + correspondence: life-cycle histories enumerated exhaustively on the REAL
-          server classes over real TCP / Unix sockets (with a watchdog) vs the model run on the same history.
-Monitor : the property statement: every reply answers its own request (unique tokens, concurrent clients, all pool
-          sizes), a malformed or failing request does not stop the service, every stop operation returns once in-flight
-          requests complete, afterwards the listening socket is closed and the workers of the stopped pool are dead.
+Model   : lean/JRV/Model/ServerLife.lean (life-cycle LTS: serving thread, closing thread, shutdown caller, handlers,
+          clients; plain and pooled server; per-connection phases queued / awaiting (idle) / running (in flight) / closed;
+          request kinds call / notification / failing method / BaseException / malformed body; shared dispatcher cell)
+Theorems: lean/JRV/Properties/C12.lean, companions of the extracted facts in lean/JRV/Properties/C12Gen.lean
+Tie     : extracted bodies of PooledJSONRPCServer.server_close / serve_forever / process_request, the catch-all handlers
+          of _dispatch / do_POST (tools/extractors/serverlife.py), the write footprint of the serve path (footprint.py)
+          + correspondence: life-cycle histories on the REAL server classes over real TCP / Unix sockets vs the model
+          run on the same history (op results, final socket / pool / stop state, reply and execution count per connection).
+Monitor : the property statement, on RAW client connections with harness-chosen ids: every reply carries the id AND the
+          token sent on that connection (no cross-talk); every request's callable ran exactly once (execution log per
+          token; notifications included; never for a malformed body); a malformed request or a failing method — ordinary
+          exception, SystemExit, KeyboardInterrupt, a direct BaseException subclass — is answered with an error object and
+          the same server (plain and pooled, pools of size 1 too) answers the healthy calls that follow; every stop
+          operation returns once in-flight requests complete, afterwards the listening socket is closed and the workers
+          of the stopped pool are dead.
+Reading : an accepted connection whose handler has begun counts as IN FLIGHT until its request has been answered or the
+          client has disconnected; stop operations wait for it (stdlib socketserver semantics).  Histories `idle` (a client
+          connects and stays silent) / `idleka` (HTTP/1.1 handler class: the client keeps the connection after its reply):
+          the stop operation is still blocked after 1 s — compared with the model — and must return once the client
+          disconnects (`stop-hang-after-release` otherwise); a stop operation that returns early must satisfy its
+          post-conditions at that point (`worker-alive-after-stop`, `post: socket-open`).
 Stage 2 : the hand-over to the request pool under the deterministic scheduler (harness/poolpaths.py, no sockets): a real
           PooledJSONRPCServer (bind_and_activate=False, default or user pool) whose `process_request_thread` is a recording
           stub; a managed accept-loop thread calls `process_request` for a sequence of fake requests, interleaved with the
@@ -16,11 +29,14 @@ Stage 2 : the hand-over to the request pool under the deterministic scheduler (h
           accepted request is handled exactly once while the pool is not stopped (none lost, none duplicated);
           `server_close()` returns once in-flight handlers complete, socket closed, pool stopped, every worker terminates.
 """
+import collections
 import itertools
 import json
 import os
+import random
 import shutil
 import socket
+import sys
 import tempfile
 import threading
 import time
@@ -29,17 +45,236 @@ import impl
 import poolpaths as pp
 
 REQUIRED_THEOREMS = [
-    "C12_isolation", "C12_once", "C12_close_no_stuck", "C12_shutdown_no_stuck", "C12_close_steps_enabled",
-    "C12_close_post", "C12_close_without_serving", "C12_pool_instantiation", "C09_at_most_once", "C09_none_after_stop",
+    "C12_isolation", "C12_once", "C12_accepted_is_started", "C12_serves_next", "C12_failure_is_local", "C12_survives",
+    "C12_close_no_stuck", "C12_shutdown_no_stuck", "C12_close_steps_enabled", "C12_close_post", "C12_close_without_serving",
+    "C12_full_statement", "C12_idle_connection_holds_stop", "C12_idle_released_by_client", "C12_idle_persist",
+    "C12_view_steps", "C12_pool_instantiation", "C09_at_most_once", "C09_none_after_stop",
     "C12_gen_serverClose", "C12_gen_serveFlag", "C12_gen_processRequest",
     "C12_gen_poolRetireRule", "C12_gen_poolGrowthRule", "C12_gen_poolPendingStores", "C12_gen_poolUnlockedAccesses",
+    "C12_gen_sharedWrites", "C12_gen_catchAll", "C12_gen_cfg", "C12_gen_isolation", "C12_gen_survives",
 ]
 
-WATCHDOG = 6.0
+DEADLINE = 12.0       # generous bound for something that must happen (robust under CPU load)
+MIN_BLOCK = 0.2       # an operation held back by a request in flight is looked at after this long
+IDLE_WATCHDOG = 1.0   # a stop operation held back by nothing but idle connections is given this long
+HANG_SEEN = [False]   # once an operation has hung for DEADLINE, later hangs are given a shorter wait
+
+FAIL_METHOD = {"exc": "boom", "typeerr": "boomtype", "recur": "recur", "sysexit": "quit", "kbint": "kbint", "basex": "basex"}
+FAIL_EXC = ("exc", "typeerr", "recur")         # ordinary exceptions
+FAIL_FATAL = ("sysexit", "kbint", "basex")     # BaseException outside Exception
+BAD_BODY = ("badjson", "badutf8", "trunc", "nolen")
+SURVIVAL_KINDS = ["fail:" + k for k in FAIL_EXC + FAIL_FATAL] + ["bad:" + k for k in BAD_BODY] + ["notiffail", "notif", "big", "overlong"]
+SIMPLE_OPS = set(["req"] + SURVIVAL_KINDS)
 
 
-def run_with_watchdog(fn, timeout=WATCHDOG):
-    """Runs fn in a thread; returns ('ok', value) | ('err', exc) | ('hang', None)."""
+class Cancelled(BaseException):
+    """A direct BaseException subclass (like asyncio.CancelledError / GeneratorExit)."""
+
+
+def deadline():
+    return 3.0 if HANG_SEEN[0] else DEADLINE
+
+
+def make_id(tok):
+    """Harness-chosen request id: distinct per token, never equal to a token or a result, strings and integers."""
+    return "q%d" % tok if tok % 3 else 7000000 + tok
+
+
+# ---- raw client ------------------------------------------------------------------------------------------------------
+
+
+class Disconnect(Exception):
+    """The connection ended without a complete HTTP reply: args[0] in eof / reset / timeout."""
+
+
+class Wire(object):
+    """One raw client connection (no HTTP library: ids, lengths and half-closes are ours)."""
+
+    def __init__(self, L, timeout=None):
+        timeout = timeout or deadline() + 3
+        if L.family == "unix":
+            # a connect with a time-out fails at once with EAGAIN while the 5-entry backlog of a Unix listener is full
+            # (and a blocking one waits for ever if nobody accepts any more): retry until the deadline
+            end = time.time() + timeout
+            while True:
+                s = socket.socket(socket.AF_UNIX, socket.SOCK_STREAM)
+                s.settimeout(1.0)
+                try:
+                    s.connect(L.addr)
+                    break
+                except (BlockingIOError, socket.timeout):
+                    s.close()
+                    if time.time() > end:
+                        raise Disconnect("timeout")
+                    time.sleep(0.005)
+        else:
+            try:
+                s = socket.create_connection(("127.0.0.1", L.server.server_address[1]), timeout)
+            except socket.timeout:
+                raise Disconnect("timeout")
+        s.settimeout(timeout)
+        self.s = s
+        self.buf = b""
+
+    def send(self, body, length=None, no_length=False, http11=False, extra=b""):
+        head = ["POST / HTTP/1.1" if http11 else "POST / HTTP/1.0", "Content-Type: application/json"]
+        if http11:
+            head.append("Host: localhost")
+        if not no_length:
+            head.append("Content-Length: %d" % (len(body) if length is None else length))
+        self.s.sendall(("\r\n".join(head) + "\r\n\r\n").encode("ascii") + body + extra)
+
+    def half_close(self):
+        try:
+            self.s.shutdown(socket.SHUT_WR)
+        except OSError:
+            pass
+
+    def _more(self):
+        try:
+            d = self.s.recv(65536)
+        except socket.timeout:
+            raise Disconnect("timeout")
+        except (ConnectionResetError, BrokenPipeError):
+            raise Disconnect("reset")
+        if not d:
+            raise Disconnect("eof")
+        self.buf += d
+
+    def read_reply(self):
+        """-> (status, body bytes)"""
+        while b"\r\n\r\n" not in self.buf:
+            self._more()
+        head, rest = self.buf.split(b"\r\n\r\n", 1)
+        lines = head.decode("latin-1").split("\r\n")
+        status = int(lines[0].split()[1])
+        clen = None
+        for ln in lines[1:]:
+            k, _, v = ln.partition(":")
+            if k.strip().lower() == "content-length":
+                clen = int(v.strip())
+        self.buf = rest
+        if clen is None:
+            try:
+                while True:
+                    self._more()
+            except Disconnect as ex:
+                if ex.args[0] == "timeout":
+                    raise
+            body, self.buf = self.buf, b""
+            return status, body
+        while len(self.buf) < clen:
+            self._more()
+        body, self.buf = self.buf[:clen], self.buf[clen:]
+        return status, body
+
+    def close(self):
+        try:
+            self.s.close()
+        except OSError:
+            pass
+
+
+def call_body(method, tok, rid, extra_params=()):
+    return json.dumps({"jsonrpc": "2.0", "id": rid, "method": method, "params": [tok] + list(extra_params)}).encode("utf-8")
+
+
+def notif_body(method, tok):
+    return json.dumps({"jsonrpc": "2.0", "method": method, "params": [tok]}).encode("utf-8")
+
+
+def build(op, tok):
+    """The bytes of the request of a simple op and what the property says the reply must be."""
+    rid = make_id(tok)
+    spec = {"op": op, "tok": tok, "id": rid, "length": None, "no_length": False, "half_close": False, "extra": b"", "execs": 1}
+    if op in ("req", "slow", "idleka", "queued"):
+        spec.update(body=call_body("slow" if op == "slow" else "echo", tok, rid), expect="result")
+    elif op == "big":
+        spec.update(body=call_body("echo", tok, rid, ["x" * 300000]), expect="result")
+    elif op == "overlong":
+        spec.update(body=call_body("echo", tok, rid), expect="result", extra=b'  {"trailing": "bytes beyond Content-Length"}', tolerate_reset=True)
+    elif op == "notif":
+        spec.update(body=notif_body("echo", tok), expect="empty")
+    elif op == "notiffail":
+        spec.update(body=notif_body("quit" if tok % 2 else "boom", tok), expect="empty")
+    elif op.startswith("fail:"):
+        spec.update(body=call_body(FAIL_METHOD[op[5:]], tok, rid), expect="error")
+    elif op == "bad:badjson":
+        spec.update(body=call_body("echo", tok, rid)[:-9], expect="parse", execs=0)
+    elif op == "bad:badutf8":
+        spec.update(body=call_body("echo", tok, rid, ["PAD"]).replace(b"PAD", b"\xff\xfe\xc3"), expect="parse", execs=0)
+    elif op == "bad:trunc":
+        full = call_body("echo", tok, rid, ["tail"])
+        spec.update(body=full[: len(full) // 2], length=len(full), half_close=True, expect="parse", execs=0)
+    elif op == "bad:nolen":
+        # the server cannot read a body of unknown length: those bytes are still unread when it closes -> the kernel may reset
+        spec.update(body=call_body("echo", tok, rid), no_length=True, half_close=True, expect="parse", execs=0, tolerate_reset=True)
+    else:
+        raise ValueError(op)
+    return spec
+
+
+def judge(spec, status, body):
+    """Property statement on one reply: -> (rendering for the projection, problem or None)."""
+    tok, rid, expect = spec["tok"], spec["id"], spec["expect"]
+    if expect == "empty":
+        if status == 200 and body == b"":
+            return "n", None
+        return "X", "notification %d answered HTTP %s %r (a notification has no reply)" % (tok, status, body[:200])
+    try:
+        d = json.loads(body.decode("utf-8"))
+    except ValueError:
+        return "X", "request %d (%s) answered HTTP %s with a body that is not JSON: %r" % (tok, spec["op"], status, body[:200])
+    if not isinstance(d, dict):
+        return "X", "request %d (%s) answered %r" % (tok, spec["op"], d)
+    if expect == "parse":
+        err = d.get("error")
+        if d.get("id") is None and isinstance(err, dict) and err.get("code") in (-32700, -32600, -32603) and "result" not in d:
+            return "P", None
+        return "X", "malformed request %d (%s) answered %r (an error object with id null was due)" % (tok, spec["op"], d)
+    if d.get("id") != rid:
+        return "X", ("request %d (%s) sent with id %r was answered with id %r: %r (cross-talk: the reply of another request)"
+                     % (tok, spec["op"], rid, d.get("id"), d))
+    if expect == "result":
+        if d.get("result") == tok + 1000 and d.get("error") is None:
+            return str(tok + 1000), None
+        return "X", "request %d (%s) with token %d answered %r (result %d was due)" % (tok, spec["op"], tok, d, tok + 1000)
+    err = d.get("error")
+    if isinstance(err, dict) and err.get("code") == -32603 and "result" not in d:
+        return "E%d" % (tok + 1000), None
+    return "X", "failing request %d (%s) answered %r (error -32603 with its own id was due)" % (tok, spec["op"], d)
+
+
+def exchange(L, spec, http11=False, keep=False):
+    """Sends the request of `spec` on a fresh raw connection -> (rendering, problem, wire or None)."""
+    w = None
+    try:
+        w = Wire(L)
+        w.send(spec["body"], length=spec["length"], no_length=spec["no_length"], http11=http11, extra=spec["extra"])
+        if spec["half_close"]:
+            w.half_close()
+        status, body = w.read_reply()
+    except Disconnect as ex:
+        if w is not None:
+            w.close()
+        if spec.get("tolerate_reset") and ex.args[0] == "reset":
+            return None, None, None
+        if ex.args[0] == "timeout":
+            HANG_SEEN[0] = True
+        return "-", "request %d (%s): no reply, connection ended with %s" % (spec["tok"], spec["op"], ex.args[0]), None
+    except OSError as ex:
+        if w is not None:
+            w.close()
+        return "-", "request %d (%s): %s: %s" % (spec["tok"], spec["op"], type(ex).__name__, ex), None
+    r, problem = judge(spec, status, body)
+    if keep:
+        return r, problem, w
+    w.close()
+    return r, problem, None
+
+
+def run_with_watchdog(fn, timeout=None):
+    """Runs fn in a thread; returns ('ok', value) | ('err', exc) | ('hang', thread)."""
     box = []
 
     def target():
@@ -50,24 +285,40 @@ def run_with_watchdog(fn, timeout=WATCHDOG):
     t = threading.Thread(target=target)
     t.daemon = True
     t.start()
-    t.join(timeout)
+    t.join(timeout or deadline())
     if t.is_alive():
         return ("hang", t)
     return box[0]
+
+
+def wait_for(cond, timeout=None):
+    """Polls `cond` until it holds or the (generous) deadline passes."""
+    end = time.time() + (timeout or deadline())
+    while True:
+        if cond():
+            return True
+        if time.time() > end:
+            return False
+        time.sleep(0.003)
+
+
+# ---- one real server -------------------------------------------------------------------------------------------------
 
 
 class Life(object):
     """One real server under a life-cycle history."""
     counter = 0
 
-    def __init__(self, kind, family, tmpdir, pool_spec):
+    def __init__(self, kind, family, tmpdir, pool_spec, http11=False):
         import jsonrpclib.SimpleJSONRPCServer as SRV
         import jsonrpclib.threadpool as TP
         self.kind, self.family = kind, family
         self.gates = {}
         self.entered = {}
         self.pool = None
-        self.own_pool = None
+        self.lock = threading.Lock()
+        self.execlog = collections.Counter()      # token -> number of executions of its callable
+        self.handlers_started = 0                 # request handlers set up so far (one per accepted connection begun)
         self.cfg = impl.jsonrpclib.config.Config()
         if family == "unix":
             Life.counter += 1
@@ -76,79 +327,129 @@ class Life(object):
         else:
             self.addr = ("127.0.0.1", 0)
             fam = socket.AF_INET
+        outer = self
+
+        class Handler(SRV.SimpleJSONRPCRequestHandler):
+            """The library's handler; tells the harness when a connection's handler has begun; HTTP/1.1 on demand."""
+            if http11:
+                protocol_version = "HTTP/1.1"
+
+            def setup(self):
+                SRV.SimpleJSONRPCRequestHandler.setup(self)
+                with outer.lock:
+                    outer.handlers_started += 1
+
         if kind == "pooled":
             if pool_spec is not None:
                 self.pool = TP.ThreadPool(pool_spec[0], pool_spec[1])
                 self.pool.start()
-            self.server = SRV.PooledJSONRPCServer(self.addr, logRequests=False, address_family=fam, config=self.cfg,
-                                                  thread_pool=self.pool)
+            self.server = SRV.PooledJSONRPCServer(self.addr, requestHandler=Handler, logRequests=False, address_family=fam,
+                                                  config=self.cfg, thread_pool=self.pool)
             self.pool = self.server._PooledJSONRPCServer__request_pool
         else:
-            self.server = SRV.SimpleJSONRPCServer(self.addr, logRequests=False, address_family=fam, config=self.cfg)
-        self.server.register_function(lambda tok: tok + 1000, "echo")
-        self.server.register_function(self._slow, "slow")
-
-        def boom(tok):
-            raise ValueError("boom %s" % tok)
-        self.server.register_function(boom, "boom")
+            self.server = SRV.SimpleJSONRPCServer(self.addr, requestHandler=Handler, logRequests=False, address_family=fam,
+                                                  config=self.cfg)
+        reg = self.server.register_function
+        reg(self._echo, "echo")
+        reg(self._slow, "slow")
+        reg(self._boom, "boom")
+        reg(self._boomtype, "boomtype")
+        reg(self._recur, "recur")
+        reg(self._quit, "quit")
+        reg(self._kbint, "kbint")
+        reg(self._basex, "basex")
         self.serve_thread = None
         self.client_threads = []
-        self.replies = {}
+        self.replies = {}       # token -> rendering
+        self.problems = []
+        self.wires = {}         # token -> open raw connection (idle ones)
         self.pool_threads = []
 
-    def _slow(self, tok):
-        self.entered[tok].set()
-        self.gates[tok].wait(20)
+    # registered methods: each logs the execution of its token first
+    def _log(self, tok):
+        with self.lock:
+            self.execlog[tok] += 1
+
+    def _echo(self, tok, *pad):
+        self._log(tok)
         return tok + 1000
 
-    def url(self):
-        if self.family == "unix":
-            return "unix+http://%s" % self.addr
-        return "http://127.0.0.1:%d/" % self.server.server_address[1]
+    def _slow(self, tok):
+        self._log(tok)
+        self.entered[tok].set()
+        self.gates[tok].wait(60)
+        return tok + 1000
+
+    def _boom(self, tok):
+        self._log(tok)
+        raise ValueError("boom %s" % tok)
+
+    def _boomtype(self, tok):
+        self._log(tok)
+        raise TypeError("raised inside the method %s" % tok)
+
+    def _recur(self, tok, depth=0):
+        if depth == 0:
+            self._log(tok)
+        return self._recur(tok, depth + 1)
+
+    def _quit(self, tok):
+        self._log(tok)
+        sys.exit(3)
+
+    def _kbint(self, tok):
+        self._log(tok)
+        raise KeyboardInterrupt()
+
+    def _basex(self, tok):
+        self._log(tok)
+        raise Cancelled("cancelled %s" % tok)
 
     def serve(self):
         self.serve_thread = threading.Thread(target=self.server.serve_forever, args=(0.01,))
         self.serve_thread.daemon = True
         self.serve_thread.start()
-        # "serving": wait until a request can be answered
         return True
 
-    def request(self, tok, method="echo"):
-        J = impl.jsonrpclib.jsonrpc
-        p = J.ServerProxy(self.url(), config=self.cfg)
-        try:
-            return getattr(p, method)(tok)
-        finally:
-            p("close")()
-
-    def slow(self, tok):
-        self.gates[tok] = threading.Event()
-        self.entered[tok] = threading.Event()
-
+    def background(self, spec):
+        """A client thread that sends `spec` and waits for its reply (slow / queued requests)."""
         def client():
-            try:
-                self.replies[tok] = self.request(tok, "slow")
-            except Exception as ex:  # noqa: BLE001
-                self.replies[tok] = ex
+            r, problem, _ = exchange(self, spec)
+            with self.lock:
+                self.replies[spec["tok"]] = r
+                if problem:
+                    self.problems.append((spec["tok"], problem))
         t = threading.Thread(target=client)
         t.daemon = True
         t.start()
         self.client_threads.append(t)
-        return self.entered[tok].wait(WATCHDOG)
+
+    def slow(self, tok):
+        self.gates[tok] = threading.Event()
+        self.entered[tok] = threading.Event()
+        self.background(build("slow", tok))
+        return self.entered[tok].wait(deadline())
 
     def snapshot_pool_threads(self):
         if self.pool is not None:
-            self.pool_threads = list(self.pool._threads)
+            for t in list(self.pool._threads):
+                if t not in self.pool_threads:
+                    self.pool_threads.append(t)
 
     def cleanup(self):
         for g in self.gates.values():
             g.set()
+        for w in self.wires.values():
+            w.close()
         try:
             if self.serve_thread is not None and self.serve_thread.is_alive():
                 run_with_watchdog(self.server.shutdown, 2)
             run_with_watchdog(self.server.server_close, 2)
         except Exception:
             pass
+
+
+# ---- life-cycle histories --------------------------------------------------------------------------------------------
 
 
 def legal_histories(kind, maxlen):
@@ -169,181 +470,389 @@ def legal_histories(kind, maxlen):
     return out
 
 
+def idle_histories(kind, thorough):
+    """Histories with an idle connection (a client that connected and is silent: `idle`; a client of a HTTP/1.1 handler
+    class that got its reply and keeps the connection: `idleka`) when the server is stopped, and — pooled, when every
+    worker is busy — a request still queued at that time."""
+    out = []
+    if kind == "pooled":
+        out += [["serve", "idle", "close"], ["serve", "idleka", "shutdown", "close"], ["serve", "slow", "idle", "close"]]
+        if thorough:
+            out += [["serve", "idle", "shutdown", "close"], ["serve", "idleka", "close"], ["serve", "req", "idle", "req", "close"],
+                    ["serve", "idle", "idleka", "close"], ["serve", "idle", "slow", "shutdown", "close"]]
+    else:
+        out += [["serve", "idle", "shutdown", "close"], ["serve", "req", "idleka", "shutdown", "close"]]
+        if thorough:
+            out += [["serve", "idleka", "shutdown", "close"], ["serve", "fail:sysexit", "idle", "shutdown", "close"]]
+    return out
+
+
+def queued_histories(pool_spec):
+    """A request accepted while every worker is busy stays queued; closing the server drops it (stop() semantics)."""
+    if pool_spec is None:
+        return []
+    cap = pool_spec[0]
+    return [["serve"] + ["slow"] * cap + ["queued", "close"], ["serve"] + ["slow"] * cap + ["queued", "shutdown", "close"]]
+
+
+def survival_histories(rng, thorough):
+    """serve, a failing / malformed request, healthy calls on the same server, …, shutdown, close."""
+    out = []
+    for k in SURVIVAL_KINDS:
+        out.append(["serve", k, "req", "shutdown", "close"])
+    n = 6 if thorough else 2
+    for _ in range(n):
+        mids = []
+        for k in rng.sample(SURVIVAL_KINDS, 5 if not thorough else 9):
+            mids += [k] + ["req"] * rng.choice((1, 1, 2))
+        out.append(["serve"] + mids + ["shutdown", "close"])
+    return out
+
+
+def workers_needed(h):
+    """Peak number of pool workers the history occupies at once (slow and idle connections hold one each)."""
+    need, held = 0, 0
+    for op in h:
+        if op in ("slow", "idle", "idleka"):
+            held += 1
+            need = max(need, held)
+        elif op in SIMPLE_OPS:
+            need = max(need, held + 1)
+    return need
+
+
+def model_op(op, tok):
+    if op in ("req", "big", "overlong"):
+        return "req%d" % tok
+    if op in ("notif", "notiffail"):
+        return "notif%d" % tok
+    if op.startswith("fail:"):
+        return ("fatal%d" if op[5:] in FAIL_FATAL else "fail%d") % tok
+    if op.startswith("bad:"):
+        return "bad%d" % tok
+    return "%s%d" % (op, tok)       # slow idle idleka queued
+
+
 def run_history(ctx, kind, family, tmpdir, pool_spec, hist):
-    """Executes one history on the real server.  Returns (result tokens, final projection string, violations)."""
-    L = Life(kind, family, tmpdir, pool_spec)
-    results, viol = [], []
-    tok = 0
-    model_ops = []
-    inflight = []
-    pending_close = None
+    """Executes one history on the real server.
+    -> (op results, final projection, [(violation, key)], model ops)"""
+    L = Life(kind, family, tmpdir, pool_spec, http11=("idleka" in hist))
+    results, viol, model_ops = [], [], []
+    toks = []                   # tokens in acceptance order = connection indices of the model
+    specs = {}
+    inflight, idle, queued = [], [], []
+    stop_state = {"shutdown": "idle", "close": "idle"}
+
+    def new_conn(op):
+        tok = len(toks) + 1
+        toks.append(tok)
+        specs[tok] = build(op if op not in ("idle",) else "req", tok)
+        specs[tok]["op"] = op
+        if op == "idle":
+            specs[tok]["execs"] = 0
+        return tok
+
+    def stop(name):
+        fn = L.server.shutdown if name == "shutdown" else L.server.server_close
+        L.snapshot_pool_threads()
+        if kind == "pooled":
+            held_f, held_i = (list(inflight), list(idle)) if name == "close" else ([], [])
+        else:
+            held_f, held_i = ([], list(idle)) if name == "shutdown" else ([], [])
+        box = []
+        th = threading.Thread(target=lambda: box.append(impl.outcome(fn)))
+        th.daemon = True
+        th.start()
+        model_ops.append(name)
+        what = "%s()" % ("shutdown" if name == "shutdown" else "server_close")
+        if not held_f and not held_i:
+            # nothing in flight, no connection held by a handler: it must return (generous deadline, robust under load)
+            th.join(deadline())
+            if th.is_alive():
+                HANG_SEEN[0] = True
+                viol.append(("%s did not return within %.0f s (no request in flight, no open connection; history %r)"
+                             % (what, DEADLINE, hist), "stop-hang: %s %s" % (kind, name)))
+            results.append("blocked" if th.is_alive() else "ok")
+        else:
+            def returned_early(while_what):
+                """The stop operation is back although connections are still in flight: allowed only if its post-conditions
+                hold at that point — listening socket closed, every worker of the stopped pool terminated."""
+                if name != "close":
+                    return
+                if L.server.socket.fileno() != -1:
+                    viol.append(("%s returned while %s and the listening socket is still open" % (what, while_what), "post: socket-open"))
+                if L.pool is not None:
+                    L.snapshot_pool_threads()
+                    if not wait_for(lambda: not any(t.is_alive() for t in L.pool_threads), 2.0):
+                        viol.append(("%s returned while %s: pool workers %r are still alive (blocked in a handler) after the stop "
+                                     "operation returned" % (what, while_what, [t.name for t in L.pool_threads if t.is_alive()]),
+                                     "worker-alive-after-stop"))
+            # held back by connections in flight: still blocked after MIN_BLOCK (a request being dispatched) / after
+            # IDLE_WATCHDOG (only connections whose handler waits for the client) — the modelled behaviour
+            th.join(MIN_BLOCK if held_f else IDLE_WATCHDOG)
+            first_look = "blocked" if th.is_alive() else "ok"
+            results.append(first_look)
+            if not th.is_alive():
+                returned_early("requests %r are being dispatched" % (held_f,) if held_f
+                               else "the connections %r are open, their handlers waiting for the client" % ([toks.index(t) for t in held_i],))
+            for t in held_f:
+                # the requests being dispatched complete
+                L.gates[t].set()
+                inflight.remove(t)
+                model_ops.append("finish%d" % toks.index(t))
+                results.append("ok")
+            if held_f and not wait_for(lambda: all(t in L.replies for t in held_f)):
+                viol.append(("the in-flight requests %r were not answered after their methods returned" % (held_f,), "inflight-lost"))
+            if held_i:
+                if held_f:
+                    was_blocked = th.is_alive()
+                    th.join(IDLE_WATCHDOG)
+                    if was_blocked and not th.is_alive():
+                        returned_early("the connections %r are open, their handlers waiting for the client" % ([toks.index(t) for t in held_i],))
+                # a stop operation that was blocked and came back BEFORE the idle clients went away: not the modelled behaviour
+                slipped = first_look == "blocked" and not th.is_alive()
+                for n, t in enumerate(held_i):
+                    # the idle clients go away: the connections complete, now the stop operation MUST return
+                    L.wires[t].close()
+                    idle.remove(t)
+                    model_ops.append("hangup%d" % toks.index(t))
+                    results.append("stop-already-returned" if (slipped and n == 0) else "ok")
+            th.join(deadline())
+            if th.is_alive():
+                HANG_SEEN[0] = True
+                viol.append(("%s still has not returned %.0f s after %s (history %r)" % (
+                    what, DEADLINE, " and ".join((["the requests being dispatched completed"] if held_f else [])
+                                                 + (["every idle client disconnected"] if held_i else [])), hist),
+                    "stop-hang-after-release: %s %s" % (kind, name)))
+        if box and box[0][0] == "err":
+            viol.append(("%s raised %r" % (what, box[0][1]), "stop-raised: %s" % name))
+        stop_state[name] = "pending" if th.is_alive() else "returned"
+
     try:
         for op in hist:
             if op == "serve":
                 L.serve()
                 results.append("ok")
                 model_ops.append("serve")
-            elif op == "req":
-                tok += 1
-                k, v = run_with_watchdog(lambda: L.request(tok))
-                if k != "ok" or v != tok + 1000:
-                    viol.append("request %d answered %r %r" % (tok, k, v))
-                results.append("ok" if k == "ok" else k)
-                model_ops.append("req%d" % tok)
-                L.replies[tok] = v
+            elif op in SIMPLE_OPS:
+                tok = new_conn(op)
+                r, problem, _ = exchange(L, specs[tok])
+                if r is None:       # tolerated reset (bytes the server never read are pending when it closes the connection)
+                    ctx_hist(ctx, "env/reset-with-unread-bytes")
+                    if specs[tok]["expect"] == "parse":
+                        r = "P"
+                    else:
+                        r = str(tok + 1000) if wait_for(lambda: L.execlog[tok] == 1) else "-"
+                L.replies[tok] = r
+                if problem:
+                    viol.append((problem + " — history %r" % (hist,), "reply: " + op))
+                results.append("ok" if not problem else "bad")
+                model_ops.append(model_op(op, tok))
+                if problem and "connection ended with timeout" in problem:
+                    break       # the server no longer answers: the rest of the history would only wait
             elif op == "slow":
-                tok += 1
-                ok = L.slow(tok)
-                if not ok:
-                    viol.append("slow request %d never reached its method" % tok)
+                tok = new_conn(op)
+                if not L.slow(tok):
+                    viol.append(("slow request %d never reached its method (history %r)" % (tok, hist), "lost: slow"))
                 results.append("ok")
                 inflight.append(tok)
-                model_ops.append("slow%d" % tok)
-            elif op == "shutdown":
-                L.snapshot_pool_threads()
-                if inflight and kind == "plain":
-                    pass
-                k, v = run_with_watchdog(L.server.shutdown)
-                if k != "ok":
-                    viol.append("shutdown() %s while %d requests in flight" % (k, len(inflight)))
-                results.append("ok" if k == "ok" else k)
-                model_ops.append("shutdown")
-            elif op == "close":
-                L.snapshot_pool_threads()
-                if inflight:
-                    # close while requests are in flight: it must wait for them and return once they complete
-                    box = []
-                    th = threading.Thread(target=lambda: box.append(impl.outcome(L.server.server_close)))
-                    th.daemon = True
-                    th.start()
-                    th.join(0.3)
-                    early = not th.is_alive()
-                    results.append("ok" if early else "blocked")
-                    model_ops.append("close")
-                    # tokens in acceptance order = connection indices in the model
-                    first_conn = {t: i for i, t in enumerate(sorted(L.replies.keys() | set(inflight)))}
-                    for t in inflight:
-                        L.gates[t].set()
-                        model_ops.append("finish%d" % first_conn[t])
-                        results.append("ok")
-                    th.join(WATCHDOG)
-                    if th.is_alive():
-                        viol.append("server_close() did not return after the in-flight requests completed")
-                    elif box and box[0][0] == "err":
-                        viol.append("server_close() raised %r" % (box[0][1],))
-                    inflight = []
-                else:
-                    k, v = run_with_watchdog(L.server.server_close)
-                    if k == "hang":
-                        viol.append("server_close() did not return (no request in flight, history %r)" % (hist,))
-                    elif k == "err":
-                        viol.append("server_close() raised %r" % (v,))
-                    results.append("ok" if k == "ok" else "blocked")
-                    model_ops.append("close")
+                model_ops.append(model_op(op, tok))
+            elif op == "idle":
+                tok = new_conn(op)
+                before = L.handlers_started
+                L.wires[tok] = Wire(L)
+                if not wait_for(lambda: L.handlers_started > before):
+                    viol.append(("the handler of connection %d was not started within %.0f s" % (len(toks) - 1, DEADLINE), "lost: idle"))
+                results.append("ok")
+                idle.append(tok)
+                model_ops.append(model_op(op, tok))
+            elif op == "idleka":
+                tok = new_conn(op)
+                r, problem, w = exchange(L, specs[tok], http11=True, keep=True)
+                L.replies[tok] = r
+                if problem:
+                    viol.append((problem, "reply: idleka"))
+                if w is not None:
+                    L.wires[tok] = w
+                    idle.append(tok)
+                results.append("ok" if not problem else "bad")
+                model_ops.append(model_op(op, tok))
+            elif op == "queued":
+                tok = new_conn(op)
+                L.background(specs[tok])
+                if not wait_for(lambda: L.pool._queue.qsize() >= 1):
+                    viol.append(("request %d was not handed to the request pool within %.0f s" % (tok, DEADLINE), "lost: queued"))
+                results.append("ok")
+                queued.append(tok)
+                model_ops.append(model_op(op, tok))
+            elif op in ("shutdown", "close"):
+                stop(op)
+            else:
+                raise ValueError(op)
+        for g in L.gates.values():
+            g.set()
         for t in L.client_threads:
-            t.join(WATCHDOG)
-        for t, v in L.replies.items():
-            if v != t + 1000:
-                viol.append("request %d got %r" % (t, v))
+            t.join(deadline())
+        hung = any(k.startswith("stop-hang") for _, k in viol)
+        # every request is answered with the reply to that very request; its callable ran exactly once
+        for tok, problem in L.problems:
+            if tok in queued:
+                continue
+            viol.append((problem + " — history %r" % (hist,), "reply: " + specs[tok]["op"]))
+        for tok in toks:
+            sp = specs[tok]
+            n = L.execlog[tok]
+            if tok in queued:
+                # accepted but never started: dropped by stop() (documented), or served after all — never half of it
+                r = L.replies.get(tok, "-")
+                if (r, n) not in (("-", 0), (str(tok + 1000), 1)):
+                    viol.append(("queued request %d: reply %r, %d executions" % (tok, r, n), "queued-half-served"))
+                continue
+            if sp["op"] == "idle":
+                L.replies[tok] = "-"
+            elif tok not in L.replies and not hung:
+                viol.append(("request %d (%s) was never answered" % (tok, sp["op"]), "lost: " + sp["op"]))
+            if n != sp["execs"] and not hung:
+                viol.append(("request %d (%s): its callable was executed %d times, %d expected (lost or duplicated execution)"
+                             % (tok, sp["op"], n, sp["execs"]), "executions: " + sp["op"]))
         closed = L.server.socket.fileno() == -1
-        pool_state = "none"
         if L.pool is not None:
-            deadline = time.time() + WATCHDOG
-            while time.time() < deadline and any(t.is_alive() for t in L.pool_threads):
-                time.sleep(0.01)
+            L.snapshot_pool_threads()
+            wait_for(lambda: not any(t.is_alive() for t in L.pool_threads), 0.5 if hung else None)
             alive = [t.name for t in L.pool_threads if t.is_alive()]
             stopped = L.pool._done_event.is_set()
             pool_state = "stopped" if stopped else "running"
-            if "close" in hist and not any("did not return" in m for m in viol):
+            if stop_state["close"] == "returned":
                 if not stopped:
-                    viol.append("request pool not stopped after server_close()")
+                    viol.append(("request pool not stopped after server_close()", "post: pool-running"))
                 if alive:
-                    viol.append("pool workers still alive after server_close(): %r" % alive)
+                    viol.append(("pool workers still alive after server_close(): %r" % alive, "post: workers-alive"))
         else:
-            pool_state = "stopped" if "close" in hist else "running"
-        if "close" in hist and not closed and not any("did not return" in m for m in viol):
-            viol.append("listening socket still open after server_close()")
-        toks = sorted(L.replies)
-        proj = "sock=%s pool=%s close=%s replies=%s" % (
-            "closed" if closed else "open", pool_state,
-            "returned" if "close" in hist and not any("did not return" in m for m in viol) else ("idle" if "close" not in hist else "pending"),
-            ",".join(str(L.replies[t]) if isinstance(L.replies[t], int) else "-" for t in toks))
+            pool_state = "none"
+        if stop_state["close"] == "returned" and not closed:
+            viol.append(("listening socket still open after server_close()", "post: socket-open"))
+        proj = "sock=%s pool=%s close=%s shut=%s replies=%s execs=%s" % (
+            "closed" if closed else "open", pool_state, stop_state["close"], stop_state["shutdown"],
+            ",".join(L.replies.get(t, "-") for t in toks), ",".join(str(L.execlog[t]) for t in toks))
     finally:
         L.cleanup()
     return results, proj, viol, model_ops
 
 
-def concurrent_clients(ctx, kind, family, tmpdir, pool_spec, nclients, ncalls):
-    """N concurrent clients with unique tokens against one serving server; returns list of violations."""
-    J = impl.jsonrpclib.jsonrpc
+def ctx_hist(ctx, key):
+    h = getattr(ctx, "hist", None)
+    if h is not None:
+        h[key] += 1
+
+
+# ---- concurrent clients ----------------------------------------------------------------------------------------------
+
+
+def concurrent_clients(ctx, kind, family, tmpdir, pool_spec, nclients, ncalls, seeds=None):
+    """N concurrent raw clients with unique tokens and ids against one serving server; with at least two workers, client 0
+    keeps a slow request in flight while the others complete fast ones (ids must not cross).  -> [(violation, key)]"""
     L = Life(kind, family, tmpdir, pool_spec)
     viol = []
     L.serve()
-    if family == "unix":
-        # a connect() with a timeout is non-blocking and fails at once with EAGAIN while the 5-entry backlog of a
-        # Unix listener is full; a blocking connect waits for room, which is what a client normally does
-        socket.setdefaulttimeout(None)
     lock = threading.Lock()
     env_errors = []
-    seeds = [ctx.rng.random() for _ in range(nclients)]
+    seeds = seeds or [ctx.rng.random() for _ in range(nclients)]
+    sent = {}                # token -> expected executions
+    progress = [0]           # fast exchanges completed
+    finished = [0]
+    cap = 1 if kind == "plain" else (30 if pool_spec is None else pool_spec[0])
+    overlap = cap >= 2 and nclients >= 2
+    actions = ["req"] * 6 + ["notif", "batch", "batch"] + SURVIVAL_KINDS
+
+    def complain(msg, key):
+        with lock:
+            viol.append((msg, "concurrent: " + key))
+
+    def one(spec):
+        with lock:
+            sent[spec["tok"]] = spec["execs"]
+        r, problem, _ = exchange(L, spec)
+        if r is None or (problem and "connection ended with reset" in problem):
+            # the kernel, not the server: accept-queue overflow (listen backlog 5) or unread bytes at close; counted and bounded
+            return "env"
+        if problem:
+            complain(problem, spec["op"])
+        return r
+
+    def batch(tok):
+        ids = [make_id(tok), make_id(tok + 2)]
+        body = json.dumps([{"jsonrpc": "2.0", "id": ids[0], "method": "echo", "params": [tok]},
+                           {"jsonrpc": "2.0", "method": "echo", "params": [tok + 1]},
+                           {"jsonrpc": "2.0", "id": ids[1], "method": "boom" if tok % 4 == 0 else "echo", "params": [tok + 2]}]).encode()
+        with lock:
+            sent[tok] = sent[tok + 1] = sent[tok + 2] = 1
+        try:
+            w = Wire(L)
+            w.send(body)
+            status, raw = w.read_reply()
+            w.close()
+        except Disconnect as ex:
+            return "env" if ex.args[0] == "reset" else complain("batch %d: no reply (%s)" % (tok, ex.args[0]), "batch")
+        try:
+            d = json.loads(raw.decode("utf-8"))
+            got = [(e.get("id"), e.get("result"), (e.get("error") or {}).get("code")) for e in d]
+        except (ValueError, AttributeError, TypeError):
+            return complain("batch %d answered %r" % (tok, raw[:200]), "batch")
+        want = [(ids[0], tok + 1000, None),
+                (ids[1], None, -32603) if tok % 4 == 0 else (ids[1], tok + 1002, None)]
+        if got != want:
+            complain("batch of client tokens %d.. answered %r, expected (id, result, error code) = %r (cross-talk, lost or "
+                     "reordered entry)" % (tok, got, want), "batch")
 
     def client(ci):
-        import random
         rng = random.Random(seeds[ci])
-        p = J.ServerProxy(L.url(), config=L.cfg)
         try:
             for j in range(ncalls):
-                tok = ci * 100000 + j
-                r = rng.random()
+                tok = ci * 100000 + j * 10
                 try:
-                    if r < 0.5:
-                        v = p.echo(tok)
-                        if v != tok + 1000:
-                            with lock:
-                                viol.append("client %d call %d got %r (cross-talk or lost reply)" % (ci, j, v))
-                    elif r < 0.6:
-                        p._notify.echo(tok)
-                    elif r < 0.75:
-                        mc = J.MultiCall(p)
-                        mc.echo(tok)
-                        mc._notify.echo(tok + 1)
-                        mc.echo(tok + 2)
-                        res = mc()
-                        got = [res[0], res[1]]
-                        if got != [tok + 1000, tok + 1002]:
-                            with lock:
-                                viol.append("client %d batch got %r" % (ci, got))
-                    elif r < 0.87:
-                        try:
-                            p.boom(tok)
-                            with lock:
-                                viol.append("client %d: failing method returned" % ci)
-                        except J.ProtocolError as ex:
-                            if str(tok) not in str(ex):
-                                with lock:
-                                    viol.append("client %d got the error of another request: %r" % (ci, ex))
-                    else:
-                        # malformed body on its own connection, then a normal call must still work
-                        raw = p("transport").request(p._ServerProxy__host, "/", "{not json %d" % tok)
-                        d = json.loads(raw)
-                        if d.get("error", {}).get("code") != -32700:
-                            with lock:
-                                viol.append("malformed body answered %r" % (raw,))
-                except (BlockingIOError, ConnectionResetError, ConnectionRefusedError, BrokenPipeError) as ex:
+                    if ci == 0 and overlap and j % 4 == 0:
+                        # a slow request in flight on this connection while fast ones complete on the others
+                        L.gates[tok] = threading.Event()
+                        L.entered[tok] = threading.Event()
+                        spec = build("slow", tok)
+                        with lock:
+                            sent[tok] = 1
+                        w = Wire(L)
+                        w.send(spec["body"])
+                        if not L.entered[tok].wait(DEADLINE):
+                            complain("slow request %d never reached its method" % tok, "slow")
+                        start = progress[0]
+                        wait_for(lambda: progress[0] >= start + 3 or finished[0] >= nclients - 1, 5.0)
+                        with lock:
+                            ctx_hist(ctx, "concurrent/overlap:%d-fast-during-slow" % min(3, progress[0] - start))
+                        L.gates[tok].set()
+                        status, body = w.read_reply()
+                        w.close()
+                        _, problem = judge(spec, status, body)
+                        if problem:
+                            complain(problem, "slow")
+                        continue
+                    act = rng.choice(actions)
+                    r = batch(tok) if act == "batch" else one(build(act, tok))
+                    if r == "env":
+                        with lock:
+                            env_errors.append("reset")
+                        time.sleep(0.05)
+                    with lock:
+                        progress[0] += 1
+                except (BlockingIOError, ConnectionResetError, ConnectionRefusedError, BrokenPipeError, Disconnect) as ex:
                     # the kernel's accept queue (listen backlog 5) overflows when many clients connect at once:
                     # EAGAIN on a Unix socket, a reset on TCP.  An environment limit, not a server reply: back off
                     # and go on, but a server that keeps refusing is reported
                     with lock:
                         env_errors.append(type(ex).__name__)
+                        sent.pop(tok, None)
                     time.sleep(0.05)
                 except Exception as ex:  # noqa: BLE001
-                    with lock:
-                        viol.append("client %d call %d raised %s: %s" % (ci, j, type(ex).__name__, ex))
+                    complain("client %d call %d raised %s: %s" % (ci, j, type(ex).__name__, ex), "client")
         finally:
-            try:
-                p("close")()
-            except Exception:
-                pass
+            with lock:
+                finished[0] += 1
 
     ths = [threading.Thread(target=client, args=(i,)) for i in range(nclients)]
     for t in ths:
@@ -351,22 +860,29 @@ def concurrent_clients(ctx, kind, family, tmpdir, pool_spec, nclients, ncalls):
         t.start()
         time.sleep(0.003)   # do not hit the 5-entry listen backlog with all clients in the same millisecond
     for t in ths:
-        t.join(60)
+        t.join(90)
         if t.is_alive():
-            viol.append("a client did not finish within 60 s (lost reply)")
+            viol.append(("a client did not finish within 90 s (lost reply)", "concurrent: lost"))
+    for g in L.gates.values():
+        g.set()
     if len(env_errors) > max(3, nclients * ncalls // 20):
-        viol.append("%d connection-level failures out of %d calls: %r" % (len(env_errors), nclients * ncalls, env_errors[:5]))
-    ctx.hist["env/connect-retry"] += len(env_errors)
+        viol.append(("%d connection-level failures out of %d calls: %r" % (len(env_errors), nclients * ncalls, env_errors[:5]), "concurrent: env"))
+    if hasattr(ctx, "hist"):
+        ctx.hist["env/connect-retry"] += len(env_errors)
+    # no lost or duplicated executions (notifications and batch entries included); resets leave the count open
+    if not env_errors:
+        bad = [(t, L.execlog[t], n) for t, n in sorted(sent.items()) if L.execlog[t] != n]
+        if bad:
+            viol.append(("callables executed a wrong number of times (token, executions, expected): %r" % (bad[:6],), "concurrent: executions"))
     L.snapshot_pool_threads()
     k, _ = run_with_watchdog(L.server.shutdown)
     if k != "ok":
-        viol.append("shutdown() %s after the clients finished" % k)
+        viol.append(("shutdown() %s after the clients finished" % k, "concurrent: stop"))
     k, _ = run_with_watchdog(L.server.server_close)
     if k != "ok":
-        viol.append("server_close() %s after the clients finished" % k)
+        viol.append(("server_close() %s after the clients finished" % k, "concurrent: stop"))
     L.cleanup()
-    socket.setdefaulttimeout(20)
-    return viol
+    return viol, seeds
 
 
 def pooled_stage(ctx):
@@ -380,8 +896,17 @@ def pooled_stage(ctx):
                            "(socketserver's process_request_thread) is a recording stub; time-outs expire only at quiescence")
 
 
+def unknown_violations(ctx):
+    return list(ctx.violations)
+
+
 def run(ctx):
     run_sockets(ctx)
+    if unknown_violations(ctx):
+        # a failing input on real sockets is in hand.  In particular a server_close() that hangs (seeded revert-6968d4c) would
+        # make every run of the scheduler stage wait for its 30 s real-time watchdog (BaseServer's event is not a shim)
+        ctx.hist["pooled-requests/skipped: the socket stage already shows a failing input"] += 1
+        return
     pooled_stage(ctx)
 
 
@@ -392,72 +917,110 @@ def search(ctx):
         run_sockets(ctx)
 
 
+def history_class(h):
+    if "queued" in h:
+        return "queued-at-close"
+    if "idle" in h or "idleka" in h:
+        return "idle-connection"
+    if any(op in SIMPLE_OPS and op != "req" for op in h):
+        return "survival"
+    if "slow" in h:
+        return "inflight"
+    return "served" if "serve" in h else "never-served"
+
+
 def run_sockets(ctx):
     ctx.rule = ("life-cycle histories over {serve, request, slow request in flight, shutdown, server_close} enumerated "
                 "exhaustively up to length 4 (quick) / 5 (thorough) for plain and pooled servers (default pool, user pools of "
-                "size 1 and (2,1)), over TCP and Unix sockets, each op under a watchdog; plus N concurrent clients (quick 8, "
-                "thorough up to 48) with unique tokens mixing calls, notifications, batches, failing and malformed requests "
-                "against pools of size 1, 2, 30; distinct_nontrivial = distinct (server kind, pool, family, history) with a stop "
-                "operation issued while serving or with requests in flight")
+                "size 1 and (2,1)), over TCP and Unix sockets; survival histories (a method raising ValueError / TypeError / "
+                "RecursionError / SystemExit / KeyboardInterrupt / a BaseException subclass, a body that is cut JSON / invalid "
+                "UTF-8 / truncated below its Content-Length / without Content-Length / longer than its Content-Length / 300 kB, a "
+                "failing notification, each followed by healthy calls on the same plain and pooled server, pool of 1 included); "
+                "histories with an idle connection or a queued request at stop time; every request on a raw connection with a "
+                "harness-chosen id, reply id + token and the execution count per token checked; each stop op polled with a "
+                "generous deadline; plus N concurrent raw clients (quick 8, thorough up to 48) mixing calls, notifications, "
+                "batches, failing and malformed requests, with a slow request in flight while fast ones complete, against pools "
+                "of size 1, 2, 30 and the plain server; distinct_nontrivial = distinct (server kind, pool, family, history) with "
+                "a stop operation issued while serving or with requests in flight")
     tmpdir = tempfile.mkdtemp(prefix="jrv-c12-")
     old_to = socket.getdefaulttimeout()
     socket.setdefaulttimeout(20)
+    old_hook = threading.excepthook
+    died = []
+    threading.excepthook = lambda a: died.append((a.thread.name if a.thread else "?", a.exc_type.__name__))
+    HANG_SEEN[0] = False
     lines, impl_out = [], []
     try:
         maxlen = 5 if ctx.thorough else 4
-        combos = []
+        combos, extra = [], []
+        srng = ctx.derive_rng("survival")
         for kind in ("pooled", "plain"):
             pools = [None, (1, 0), (2, 1)] if kind == "pooled" else [None]
             for pool_spec in pools:
+                cap = 1 if kind == "plain" else (30 if pool_spec is None else pool_spec[0])
                 for family in ("tcp", "unix"):
                     for h in legal_histories(kind, maxlen):
-                        # a handler can only be in flight if a pool worker is free for it (others stay queued and are
-                        # dropped by stop(), which the model does not distinguish from "never accepted")
-                        cap = 30 if pool_spec is None else pool_spec[0]
-                        need, slows = 0, 0
-                        for op in h:
-                            if op == "slow":
-                                slows += 1
-                                need = max(need, slows)
-                            elif op == "req":
-                                need = max(need, slows + 1)
-                        if need <= cap:
+                        # a handler can only be in flight if a pool worker is free for it (the others stay queued: the
+                        # `queued` histories)
+                        if workers_needed(h) <= cap:
                             combos.append((kind, pool_spec, family, h))
+                    for h in idle_histories(kind, ctx.thorough):
+                        # quick: the default pool and the plain server over TCP, the pool of one worker over a Unix socket
+                        if workers_needed(h) <= cap and (ctx.thorough or (family == "tcp" and pool_spec is None)
+                                                         or (family == "unix" and pool_spec == (1, 0))):
+                            extra.append((kind, pool_spec, family, h))
+                    if kind == "pooled" and (ctx.thorough or family == "tcp"):
+                        for h in queued_histories(pool_spec):
+                            extra.append((kind, pool_spec, family, h))
+                # survival: every kind on the plain server, the default pool and a pool of one worker
+                if pool_spec in (None, (1, 0)):
+                    fams = ("tcp", "unix")
+                    for n, h in enumerate(survival_histories(srng, ctx.thorough)):
+                        for family in (fams if ctx.thorough else (fams[(n + (pool_spec is None)) % 2],)):
+                            extra.append((kind, pool_spec, family, h))
         if not ctx.thorough:
-            # quick: every history on the default pooled server over TCP, a seeded half of the other combinations
+            # quick: every history on the default pooled server over TCP, a seeded third of the other combinations
             keep = [c for c in combos if (c[0] == "pooled" and c[1] is None and c[2] == "tcp")]
             rest = [c for c in combos if c not in keep]
             ctx.rng.shuffle(rest)
             combos = keep + rest[: len(rest) // 3]
         else:
             ctx.exhaustive = not ctx.searching
+        combos += extra
         for kind, pool_spec, family, h in combos:
+            case = {"server": kind, "pool": pool_spec, "family": family, "history": h}
             results, proj, viol, model_ops = run_history(ctx, kind, family, tmpdir, pool_spec, h)
-            for m in viol:
-                ctx.violate({"server": kind, "pool": pool_spec, "family": family, "history": h}, m, key=m[:45])
-            if kind == "pooled":
-                lines.append("lifeseq " + " ".join(model_ops))
-                impl_out.append(" ".join(results) + " ; " + proj)
+            for m, key in viol:
+                ctx.violate(case, m, key=key)
+            if len(unknown_violations(ctx)) >= 6:
+                break       # failing inputs are in hand: no point in spending the rest of the budget
+            lines.append("lifeseq %s %s" % (kind, " ".join(model_ops)))
+            impl_out.append(" ".join(results) + " ; " + proj)
             nontrivial = ("serve" in h) and ("close" in h)
-            ctx.count(case_repr={"server": kind, "pool": pool_spec, "family": family, "history": h, "results": results, "final": proj},
+            ctx.count(case_repr=dict(case, results=results, final=proj),
                       nontrivial_key=(kind, pool_spec, family, tuple(h)) if nontrivial else None,
-                      kind="history/%s/%s" % (kind, "inflight" if "slow" in h else ("served" if "serve" in h else "never-served")))
+                      kind="history/%s/%s" % (kind, history_class(h)))
+            for op in h:
+                if op in SIMPLE_OPS and op != "req":
+                    ctx.hist["request/" + op] += 1
         # concurrent clients
-        # keep-alive connections occupy a pool worker each and the listen backlog is 5: beyond workers + backlog the
+        # a connection occupies a pool worker while it is handled and the listen backlog is 5: beyond workers + backlog the
         # kernel (not the server) turns connections away, so the number of simultaneous clients stays below that
         sizes = [(None, 8), ((1, 0), 5), ((2, 1), 6)] if not ctx.thorough else [(None, 32), ((1, 0), 5), ((2, 1), 6), ((30, 0), 24), ((8, 2), 12)]
-        for pool_spec, n in sizes:
-            for family in (("tcp",) if not ctx.thorough else ("tcp", "unix")):
-                viol = concurrent_clients(ctx, "pooled", family, tmpdir, pool_spec, n, 12 if not ctx.thorough else 25)
-                for m in viol:
-                    ctx.violate({"server": "pooled", "pool": pool_spec, "family": family, "clients": n}, m, key="concurrent:" + m[:30])
-                ctx.count(case_repr={"concurrent_clients": n, "pool": pool_spec, "family": family},
-                          nontrivial_key=("conc", pool_spec, family, n), kind="concurrent/pooled", n=n * 12)
-        viol = concurrent_clients(ctx, "plain", "tcp", tmpdir, None, 4, 10)
-        for m in viol:
-            ctx.violate({"server": "plain", "clients": 4}, m, key="concurrent:" + m[:30])
-        ctx.count(kind="concurrent/plain", nontrivial_key=("conc", "plain"), n=40)
+        ncalls = 12 if not ctx.thorough else 25
+        runs = [("pooled", pool_spec, family, n, ncalls) for pool_spec, n in sizes
+                for family in (("tcp",) if not ctx.thorough else ("tcp", "unix"))] + [("plain", None, "tcp", 4, 10)]
+        for kind, pool_spec, family, n, nc in runs:
+            viol, seeds = concurrent_clients(ctx, kind, family, tmpdir, pool_spec, n, nc)
+            case = {"concurrent": True, "server": kind, "pool": pool_spec, "family": family, "clients": n, "calls": nc, "seeds": seeds}
+            for m, key in viol:
+                ctx.violate(case, m, key=key)
+            ctx.count(case_repr={"concurrent_clients": n, "server": kind, "pool": pool_spec, "family": family},
+                      nontrivial_key=("conc", kind, pool_spec, family, n), kind="concurrent/" + kind, n=n * nc)
+        for name, exc in died:
+            ctx.hist["thread-died/%s" % exc] += 1
     finally:
+        threading.excepthook = old_hook
         socket.setdefaulttimeout(old_to)
         shutil.rmtree(tmpdir, ignore_errors=True)
     outs = ctx.lean(lines)
@@ -468,26 +1031,44 @@ def run_sockets(ctx):
     ctx.assumptions.append("socketserver.BaseServer (serve_forever/shutdown protocol), the kernel's listening sockets and the request "
                            "pool's stop() are an environment model in JRV.Model.ServerLife; the race between server_close() and a "
                            "serving thread that is just starting is explored in the model only (real runs serialise the operations)")
-
+    ctx.assumptions.append("C12 'in-flight request' = a request whose handler has STARTED (it holds a pool worker / the serving "
+                           "thread).  A connection accepted while every worker is busy waits in the pool queue; server_close() drops "
+                           "it unserved (ThreadPool.stop() discards queued tasks — its documented semantics): its client sees the "
+                           "connection end without a reply and its callable never runs.  Modelled explicitly (`stopPool` lets "
+                           "queued connections be; histories `queued`); not counted as a lost request.")
+    ctx.assumptions.append("C12 reading of 'in-flight request': an accepted connection whose handler has begun counts as in flight "
+                           "until its request has been answered or the client has disconnected; stop operations wait for it (stdlib "
+                           "socketserver semantics: the handler holds its pool worker / the plain server's serving thread until the "
+                           "exchange is over).  A client that connects and stays silent, or keeps a persistent connection after its "
+                           "reply, therefore holds server_close() (pooled) / shutdown() (plain) until it sends or disconnects: modelled "
+                           "(phase `awaiting`), proved (C12_full_statement, C12_idle_*) and observed (histories `idle` / `idleka`: still "
+                           "blocked after 1.0 s, returns after the client closes)")
 
 def replay(payload):
     case = payload.get("case", {})
     if case.get("stage") in pp.RUNNERS:
         return pp.replay(payload, "C12")
     print(json.dumps(case, indent=1, default=repr))
-    if "history" not in case:
-        return 2
     tmpdir = tempfile.mkdtemp(prefix="jrv-c12-")
     socket.setdefaulttimeout(20)
+    old_hook = threading.excepthook
+    threading.excepthook = lambda a: sys.stdout.write("thread %s died: %s\n" % (a.thread.name if a.thread else "?", a.exc_type.__name__))
 
     class C(object):
-        pass
+        hist = collections.Counter()
+        rng = random.Random(0)
     try:
         pool = tuple(case["pool"]) if case.get("pool") else None
-        results, proj, viol, _ = run_history(C(), case["server"], case["family"], tmpdir, pool, case["history"])
+        if case.get("concurrent"):
+            viol, _ = concurrent_clients(C(), case["server"], case["family"], tmpdir, pool, case["clients"], case["calls"], seeds=case["seeds"])
+        elif "history" in case:
+            results, proj, viol, _ = run_history(C(), case["server"], case["family"], tmpdir, pool, case["history"])
+            print(results, proj)
+        else:
+            return 2
     finally:
+        threading.excepthook = old_hook
         shutil.rmtree(tmpdir, ignore_errors=True)
-    print(results, proj)
-    for v in viol:
-        print("VIOLATION reproduced:", v)
+    for v, key in viol:
+        print("VIOLATION reproduced [%s]:" % key, v)
     return 1 if viol else 0
